@@ -367,6 +367,22 @@ pub fn judge(ctx: &mut Ctx, s: &Subject, inp: &Input) {
     }
 }
 
+/// Does the type contain a collection whose elements have no wire form (`VecDeque<()>`, `HashSet<Empty>` ...)?
+/// For such a type any input that puts garbage where that collection's count is read makes the element-wise
+/// reader loop without consuming input (recorded finding #28).
+fn has_collection_of_empty_elements(s: &Shape, ver: u32) -> bool {
+    match s {
+        Shape::Seq(i, _) => model::min_size(i, ver) == 0 || has_collection_of_empty_elements(i, ver),
+        Shape::Map(k, v, _) => model::min_size(k, ver) + model::min_size(v, ver) == 0 || has_collection_of_empty_elements(k, ver) || has_collection_of_empty_elements(v, ver),
+        Shape::Opt(i) | Shape::Array(_, i) => has_collection_of_empty_elements(i, ver),
+        Shape::Res(a, b) => has_collection_of_empty_elements(a, ver) || has_collection_of_empty_elements(b, ver),
+        Shape::Tuple(v) => v.iter().any(|x| has_collection_of_empty_elements(x, ver)),
+        Shape::Struct(_, f) => f.iter().any(|f| has_collection_of_empty_elements(&f.shape, ver)),
+        Shape::Enum(_, _, vs) => vs.iter().any(|v| v.fields.iter().any(|f| has_collection_of_empty_elements(&f.shape, ver))),
+        _ => false,
+    }
+}
+
 fn contains_constrained_leaf(s: &Shape) -> bool {
     match s {
         Shape::Bool | Shape::Char | Shape::Enum(..) => true,
@@ -467,6 +483,7 @@ fn run_children(ctx: &mut Ctx, s: &Subject) {
     let report = format!("{}/vh_c06_{}.json", dir, tag);
     let mut skip = 0usize;
     let mut skip_hz = false;
+    let mut nonterminations = 0;
     let mut restarts = 0;
     loop {
         let _ = std::fs::remove_file(&journal);
@@ -598,8 +615,15 @@ fn run_children(ctx: &mut Ctx, s: &Subject) {
                 ctx.violation(
                     if inp.huge_count_of_empty_elements {
                         skip_hz = true;
+                        nonterminations += 1;
+                        "C06:does-not-return[huge-count-of-empty-elements]"
+                    } else if has_collection_of_empty_elements(&s.e.ops.shape(), s.e.version) {
+                        // the reference decoder stopped earlier (e.g. at an invalid bool the real bulk reader accepts),
+                        // but the type has a collection of empty elements whose count position garbage can reach
+                        nonterminations += 1;
                         "C06:does-not-return[huge-count-of-empty-elements]"
                     } else {
+                        nonterminations += 1;
                         "C06:does-not-return"
                     },
                     &s.label,
@@ -646,6 +670,11 @@ fn run_children(ctx: &mut Ctx, s: &Subject) {
         skip = culprit + 1;
         restarts += 1;
         ctx.count("child_restarts");
+        if nonterminations >= 3 {
+            // each further one costs the full CPU budget and adds nothing to the verdict on this type
+            ctx.count_n("inputs_not_run_after_three_nonterminations", inputs.len().saturating_sub(skip) as u64);
+            break;
+        }
         if restarts > 200 {
             ctx.inconclusive(format!("too many child restarts for {}", s.label));
             break;
